@@ -308,7 +308,9 @@ func VerifRunCluster(cs VerifClusterCase, hook VerifResHook) (res map[string]any
 			})
 			etcd.VPause()
 			apply(batch)
+			bsz := etcd.VBatch(0) // ONE response for the whole batch
 			etcd.VResume()
+			etcd.VBatch(bsz)
 			for !firedRegen {
 				select {
 				case <-started:
@@ -492,6 +494,13 @@ func VerifRunCluster(cs VerifClusterCase, hook VerifResHook) (res map[string]any
 		case "resume":
 			etcd.VResume()
 			paused = false
+		case "batchsize":
+			// etcd catches lagging watchers up in batches of at most k events (0: no limit), every batch
+			// stamped with the current store revision
+			etcd.VBatch(geti(1))
+		case "trickle":
+			// while etcd withholds deliveries: every lagging stream gets its next m catch-up batches
+			etcd.VTrickle(geti(1))
 		case "compact":
 			etcd.VCompact()
 		case "closewatch":
